@@ -15,17 +15,18 @@ import (
 
 // pipe is one pipeline construct under test (shared by C01, C03, C04).
 type pipe struct {
-	name    string
-	outs    []*fun.Iterator[int] // output iterators, each consumed by its own task
-	run     fun.Worker           // callback-style constructs: a worker to run
-	seen    *[]int               // values handed to the user callback (callback-style)
-	ordered bool                 // output order must equal input order
-	expect  []int                // expected output multiset / sequence
-	feeders []func()             // feeder tasks (channel sources)
-	inputs  []*fun.Iterator[int] // upstream iterators (closed by nobody but the construct)
-	w       int
-	stalled bool // a source stalls (C04 stop modes)
-	peeked  bool // the sources were advanced once before being wrapped
+	name        string
+	outs        []*fun.Iterator[int] // output iterators, each consumed by its own task
+	run         fun.Worker           // callback-style constructs: a worker to run
+	seen        *[]int               // values handed to the user callback (callback-style)
+	ordered     bool                 // output order must equal input order
+	expect      []int                // expected output multiset / sequence
+	feeders     []func()             // feeder tasks (channel sources)
+	inputs      []*fun.Iterator[int] // upstream iterators (closed by nobody but the construct)
+	w           int
+	stalled     bool // a source stalls (C04 stop modes)
+	stagedInput bool // in peek mode: the source is wrapped in a running Buffer stage
+	peeked      bool // the sources were advanced once before being wrapped
 }
 
 // stall lets the scheduler interleave here, one to three times.
@@ -59,6 +60,14 @@ func source(p *pipe, items []int) *fun.Iterator[int] {
 			simrt.Spawn("feeder", f)
 		}
 		p.feeders = nil
+		if simrt.Choose(2) == 1 {
+			// the input is itself a running stage of the library (its
+			// goroutine is started by the peek, under the long-lived context,
+			// and holds prefetched items): closing the construct under test,
+			// even before its first advance, has to wind that stage up too
+			it = it.Buffer(1 + simrt.Choose(2))
+			p.stagedInput = true
+		}
 		_, _ = it.ReadOne(pipePeek)
 		p.peeked = true
 	}
@@ -89,7 +98,22 @@ func source0(p *pipe, items []int) *fun.Iterator[int] {
 		p.stalled = true
 		return fun.ChannelIterator(ch)
 	}
-	switch simrt.Choose(3) {
+	switch simrt.Choose(4) {
+	case 3:
+		// an ordinary generator closure: correct with one caller at a time (it
+		// reads its cursor, takes its time, then advances it), which is all an
+		// input iterator promises - serialising access to it is the construct's
+		// business
+		cursor := 0
+		return fun.Generator(func(ctx context.Context) (int, error) {
+			i := cursor
+			simrt.Yield()
+			if i >= len(items) {
+				return 0, io.EOF
+			}
+			cursor = i + 1
+			return items[i], nil
+		})
 	case 0:
 		return fun.SliceIterator(append([]int{}, items...))
 	case 1:
